@@ -278,5 +278,15 @@ class Origins:
                     out |= self.deps(v, seen)
         return out
 
+    def deps_names(self, e: ast.AST, _seen: Optional[Set[str]] = None) -> Set[str]:
+        """All names (locals and parameters) the expression transitively depends on."""
+        seen = _seen if _seen is not None else set()
+        for n in ast.walk(e):
+            if isinstance(n, ast.Name) and n.id not in seen:
+                seen.add(n.id)
+                for _, v in self.defs.get(n.id, []):
+                    self.deps_names(v, seen)
+        return seen
+
     def crs_roots(self, e: ast.AST) -> Set[str]:
         return {r for r, c in self.origin(e) if c}
